@@ -12,7 +12,11 @@ algorithm follows is in bounds, so the defaults are never read (the Rust `v[i]` 
   builds, where the loop then finds no ear and returns `None`); the model returns `none` up front;
 * clockwise input: the pinned code never inspects the last three vertices (and, for `n = 3`, no vertex at all), so a
   clockwise triangle yields `Some([[2,0,1]])` and a clockwise dart a two-triangle "tiling" outside the polygon; the model
-  returns `none` when the final triangle is not counter-clockwise.
+  returns `none` when the final triangle is not counter-clockwise;
+* numerically degenerate corners (`fixes/C16-ear-clipping-degenerate-corner.diff`): when rounding makes a straight corner
+  "counter-clockwise" and another vertex is collinear with it, `is_point_in_triangle` returns `None` and the pinned
+  `update_vertex` aborts the whole triangulation (valid polygons with collinear runs given in non-representable
+  coordinates → `None`); the model counts such a vertex as inside instead.  Unreachable in exact arithmetic.
 -/
 namespace Model.C16
 open Model Model.C15
@@ -49,9 +53,10 @@ def noPointInside (pts : Array (V2 K)) (prev idx next : Nat) (p1 p p3 : V2 K) : 
       | .some true => (false, false)          -- `all` short-circuits on the first `false`
       | .some false => noPointInside pts prev idx next p1 p p3 k
       | .invalid =>
-        -- `error = true; true`: keeps scanning, the final result reports the error
-        let r := noPointInside pts prev idx next p1 p p3 k
-        (r.1, true)
+        -- **corrected**: the pinned tree sets `error = true` here and `update_vertex` then makes the whole
+        -- triangulation return `None`; a `None` from `is_point_in_triangle` only says that the corner is numerically
+        -- degenerate with `points[i]` on its line — it is counted as "inside" (the corner is not an ear)
+        (false, false)
       | .panic => (false, true)
 
 /-- `update_vertex(idx, &mut vertex_info, points)`: returns the updated info and the success flag -/
